@@ -336,6 +336,10 @@ def main():
     chk.cov['traces_validated_against_impl'] += n
     for b in bad:
         chk.violation('textx generate, generic generator: %s' % b['detail'], b)
+    n, bad = click_level_scenario()
+    chk.cov['traces_validated_against_impl'] += n
+    for b in bad:
+        chk.violation(b['detail'], b)
     chk.cov['paths_explored'] = paths
     chk.cov['distinct_nontrivial'] = paths
     if chk.cov['model_mismatches']:
@@ -384,6 +388,43 @@ def generic_fallback():
     return 1, out
 
 
+CLICK_ARGS = [['--Overwrite'], ['--Output-Path', 'p'], ['--TARGET', 'q'], ['--Grammar', 'g'], ['--Language', 'l'],
+              ['--Ignore-Case'], ['--someBool'], ['--a', 'v', '--Flag'], ['--OVERWRITE', '--x', 'y']]
+
+
+def click_level_scenario():
+    """concrete supplement, through click's own argument parser (the symbolic exploration calls the callback
+    of the command directly): custom arguments that differ from an option of `generate` itself only in letter
+    case are custom arguments"""
+    import textx.registration as REG
+    from click.testing import CliRunner
+    from textx.cli import textx as group
+    out = []
+    tmpd = tempfile.mkdtemp(prefix='c30k_')
+    fn = os.path.join(tmpd, 'x.c30l')
+    with open(fn, 'w') as f:
+        f.write('m foo')
+    logging.disable(logging.CRITICAL)
+    try:
+        for declared in (None, [('Overwrite', True)]):
+            for cargs in CLICK_ARGS:
+                received = setup_registry(declared)
+                res = CliRunner().invoke(group, ['generate', fn, '--language', 'c30lang', '--target', 'c30t'] + cargs)
+                exp_code, exp_kw = reference(cargs, declared)
+                got = received[0] if received else None
+                if res.exit_code != exp_code or got != exp_kw:
+                    out.append({'kind': 'click', 'detail': 'textx generate x.c30l --language c30lang --target c30t %s '
+                                '(declared %s): exit %r kwargs %r, expected exit %r kwargs %r'
+                                % (' '.join(cargs), declared, res.exit_code, got, exp_code, exp_kw)})
+    finally:
+        logging.disable(logging.NOTSET)
+        os.remove(fn)
+        os.rmdir(tmpd)
+        REG.clear_generator_registrations()
+        REG.clear_language_registrations()
+    return 2 * len(CLICK_ARGS), out[:3]
+
+
 def run_concrete_tmp(cargs, declared):
     tmpd = tempfile.mkdtemp(prefix='c30r_')
     fn = os.path.join(tmpd, 'x.c30l')
@@ -402,6 +443,9 @@ def replay(data):
         return bool(bad), bad
     if data.get('kind') == 'generic':
         n, bad = generic_fallback()
+        return bool(bad), bad
+    if data.get('kind') == 'click':
+        n, bad = click_level_scenario()
         return bool(bad), bad
     declared = data.get('declared')
     declared = [tuple(x) for x in declared] if declared is not None else None
